@@ -421,6 +421,31 @@ func twiceCases(l *lab, n int, races int, seed int64, out *h.Out) error {
 		out.Emit(o)
 		env.Close()
 	}
+	{ // a Save that fails AFTER its rename (<height>.json cannot be created) must not leave its height directory
+		root, env, err := l.caseRoot(a, "twice-saveerr")
+		if err != nil {
+			return err
+		}
+		o := mk("save-error-after-rename")
+		wa := newStepWriter(root, a)
+		if err := wa.all(); err != nil {
+			return err
+		}
+		if err := os.MkdirAll(isaac.BlockItemFilesPath(root, H), 0o700); err != nil { // a directory in the file's place
+			return err
+		}
+		_, err = wa.save()
+		o.ASave = short(err)
+		o.BSave = "not-called"
+		_ = os.Remove(isaac.BlockItemFilesPath(root, H))
+		o.After = observeHeight(root, env, H, nil)
+		if t := tempDirs(root); t != nil {
+			o.TempAfterB = t
+		}
+		_ = wa.fs.Cancel()
+		out.Emit(o)
+		env.Close()
+	}
 	// both Save at the same moment (real goroutines; the schedule is whatever the run gives)
 	for i := 0; i < races; i++ {
 		root, env, err := l.caseRoot(a, "twice-race")
